@@ -106,7 +106,9 @@ type Notifier interface {
 	NotifyMerger(kind string, synchronous bool) error
 }
 
-const stepTimeout = 20 * time.Second
+// how long the driver waits for the implementation to reach a gate or emit an event
+// (raised for the dimensions that move 16 MB keys / 256 MB values through every step)
+var stepTimeout = 20 * time.Second
 
 // Session replays one behaviour.
 type Session struct {
@@ -141,6 +143,9 @@ type Session struct {
 
 func NewSession(d Dims) *Session {
 	s := &Session{D: d, snaps: map[int]moss.Snapshot{}, life: "open"}
+	if d.ConcrProfile == "limits" || d.ConcrProfile == "limits28" {
+		stepTimeout = 180 * time.Second
+	}
 	s.C = MakeConcr(d)
 	s.merge = &moss.MergeOperatorStringAppend{Sep: s.C.Sep}
 	return s
